@@ -15,13 +15,11 @@
       point, and that normal is the third ("up") column of the ENU matrix;
     * ordering (`latlong` / `longlat`) and array-shape handling are permutation / map lemmas.
 
-  NOT proved: that the closed-form inverse (`ecfToGeodeticLL`, Heikkinen's formulas as coded) inverts
-  the forward map over ℝ.  The full statement is kept below as `C12_inverse_exact : Prop` (a definition,
-  it asserts nothing); the harness checks it numerically against a 50-digit forward evaluation.
-  Proved parts of it (section 9): the longitude component everywhere off the polar axis
-  (`inverse_lon_exact_partial`) and the whole statement, validity flag included, on the equator
-  (`inverse_exact_on_equator_partial`).  Also not proved: injectivity of the forward map in latitude
-  (`forward_injective_on_domain` of DESIGN.md); only injectivity in the height is (`forward_injective_in_height`).
+  The closed-form inverse (`ecfToGeodeticLL`, Heikkinen's formulas as coded): this file states the full-strength
+  proposition `C12_inverse_exact` (section 8) and proves the longitude component and the equatorial case (section 9);
+  `Props/C12Inj.lean` proves injectivity of the forward map on the property's domain (latitude in [-90, 90], height above
+  -b²/a), `Props/C12Inv.lean` proves `inverse_exact : C12_inverse_exact` (exactness over ℝ for every latitude in [-90, 90],
+  longitude in (-180, 180] and height above -a(1-2e²), validity flag included, poles included).
 -/
 import SarpyModel.Spec.Geo
 import Mathlib.Analysis.SpecialFunctions.Trigonometric.Basic
@@ -632,11 +630,11 @@ theorem forward_injective_in_height (lat lon h h' : ℝ)
     linear_combination (up lat lon).x * hx + (up lat lon).y * hy + (up lat lon).z * hz
   linarith
 
-/-- **NOT PROVED — the full-strength statement about the closed-form inverse**, kept visible.  It says that, over ℝ,
-    the formulas of lines 57-91 invert the forward map exactly on the property's domain (away from the poles the
-    longitude is recovered in (−180, 180]; at a pole the code returns longitude 0).  This is a definition of a
-    proposition; nothing in this file asserts it.  The check ties it numerically: sarpy's float evaluation of these
-    formulas against a 50-digit forward evaluation, on a seeded grid. -/
+/-- **the full-strength statement about the closed-form inverse**: over ℝ, the formulas of lines 57-91 invert the forward map
+    exactly on the property's domain (away from the poles the longitude is recovered in (−180, 180]; at a pole the code
+    returns longitude 0).  This is the definition of the proposition; it is PROVED as `inverse_exact` in
+    `Props/C12Inv.lean` (on the larger height domain h > −a(1−2e²)).  The check additionally ties the floating-point
+    evaluation numerically: sarpy's results against a 50-digit forward evaluation, on a seeded grid. -/
 def C12_inverse_exact : Prop :=
   (∀ lat lon h : ℝ, -90 < lat → lat < 90 → -180 < lon → lon ≤ 180 → -10000 ≤ h →
       ecfToGeodetic false (geodeticToEcfLL lat lon h) = some ⟨lat, lon, h⟩) ∧
@@ -658,7 +656,7 @@ theorem lon_component (v : V3 ℝ) : (ecfToGeodeticLL v).y = Complex.arg ⟨v.x,
   simp [ecfToGeodeticLL, rad2deg]
 
 /-- **partial (longitude only)**: away from the polar axis the inverse returns exactly the longitude that went into the
-    forward map, for every longitude in (−180, 180].  Missing for the full statement: latitude and height. -/
+    forward map, for every longitude in (−180, 180].  (Latitude and height: `inverse_lat_height_exact` in `Props/C12Inv.lean`.) -/
 theorem inverse_lon_exact_partial (lat lon h : ℝ)
     (hp : 0 < (primeVertical lat + h) * Real.cos (lat * (Real.pi / 180))) (h1 : -180 < lon) (h2 : lon ≤ 180) :
     (ecfToGeodeticLL (geodeticToEcfLL lat lon h)).y = lon := by
@@ -677,7 +675,7 @@ theorem inverse_equatorial_plane (x y : ℝ) (hr : cE2 * cA < Real.sqrt (x * x +
     ecfToGeodeticLL ⟨x, y, 0⟩ = ⟨0, Complex.arg ⟨x, y⟩ * (180 / Real.pi), Real.sqrt (x * x + y * y) - cA⟩ := by
   rw [V3.eq_iff]
   generalize hrr : Real.sqrt (x * x + y * y) = r at hr
-  simp [ecfToGeodeticLL, rad2deg, hrr]
+  simp [ecfToGeodeticLL, heikR0, heikQ, heikP, heikS, heikC, heikG, heikF, rad2deg, hrr]
   have hA := cA_pos
   have hR0 : (Real.sqrt 2)⁻¹ * Real.sqrt |(cA2 : ℝ)| * Real.sqrt |(1:ℝ) + 1| = cA := by
     have h2 : |(1:ℝ) + 1| = 2 := by norm_num
@@ -713,8 +711,8 @@ theorem ecfValid_equatorial (x y : ℝ) (hr : cE2 * cA < Real.sqrt (x * x + y * 
   nlinarith [mul_pos h0 hA, mul_pos (sub_pos.2 hr) hA, mul_pos hA hA]
 
 /-- **partial (latitude 0 only)**: on the equator the closed-form inverse inverts the forward map exactly, for every longitude
-    in (−180, 180] and every height above −b²/a, including the validity flag.  Missing for the full statement
-    `C12_inverse_exact`: latitudes other than 0 (the cube-root branch of the formulas with z ≠ 0). -/
+    in (−180, 180] and every height above −b²/a, including the validity flag.  (Kept under its historical name; the general
+    case is `inverse_exact_on_domain` in `Props/C12Inv.lean`.  Here the height domain is the larger h > −b²/a.) -/
 theorem inverse_exact_on_equator_partial (lon h : ℝ) (h1 : -180 < lon) (h2 : lon ≤ 180) (hh : -(cB2 / cA) < h) :
     ecfToGeodetic false (geodeticToEcfLL 0 lon h) = some ⟨0, lon, h⟩ := by
   have hA := cA_pos
